@@ -53,7 +53,7 @@ LEVEL_TEXT = ("Props/C11.lean (float syntax model, every feature set): complete_
               "the look-ahead of a skip decision only from `some x` to end of input, all predicates are monotone for that change "
               "(holds_weaken) unless they ask for a digit after the separator (i, il, ic, ilc@first), and that digit is then "
               "consumed by the digit loop - EXCEPT in the exponent when mantissa_radix > exponent_radix: the exact exclusion "
-              "`digit-seeking exponent predicate => mantissa_radix <= exponent_radix` (SepCfg.digE), shown exact by "
+              "`digit-seeking exponent predicate => mantissa_radix <= exponent_radix` (ExpRadixOK, number results only), shown exact by "
               "witness_sep_hex_i/_il/_ic ('1p1_a' -> (2.0,4), '1p1_' -> InvalidDigit; reproduced on the implementation: the open "
               "finding 'exponent is_digit uses the mantissa radix'). The count may stand after trailing separators a peek skipped "
               "('1__2__x' -> 6 with I+L+T+C); the many-digits re-parse is covered (ZerosMirror: skip_zeros repeats the peek "
